@@ -1005,7 +1005,7 @@ def shared_conversion_rule(crate, prop, rule="C09.R1"):
             if b.is_cleanup(blk):
                 continue
             at = t.get("arg_tys") or []
-            if at and at[0] == "attr::Inflection":
+            if at and at[0] == "attr::Inflection" and any(re.search(r"str\b|String", x or "") for x in at[1:]):      # a conversion is handed the name; a table lookup on the rule alone is not one
                 extra = tuple(json_const(a) for a in t["args"][1:])
                 sites[role].append((t["fn"].get("res") or t["fn"]["path"], tuple(x for x in extra if x is not None), M.user_span(t["span"])))
     for role, lst in sites.items():
